@@ -98,7 +98,17 @@ func (self *Node) MarshalJSON() ([]byte, error) {
 
 	// fast path for raw node
 	if self.isRaw() {
-		return rt.Str2Mem(self.toString()), nil
+		lock := self.rlock()
+		if self.isRaw() {
+			ret := rt.Str2Mem(self.toString())
+			if lock {
+				self.runlock()
+			}
+			return ret, nil
+		}
+		if lock {
+			self.runlock()
+		}
 	}
 
 	buf := newBuffer()
